@@ -237,6 +237,49 @@ func vlRun(t *testing.T, c *vfCase, st *vfStats) {
 		time.Sleep(time.Minute)
 		return
 	}
+	if len(c.Ops) > 0 && c.Ops[0][0] == 25 {
+		// readers and writers of the node table at the same time, in real time: UpdateNode from four goroutines while four
+		// others feed claims that take the write lock.  Nothing may wedge.
+		var wg sync.WaitGroup
+		stop := make(chan struct{})
+		for g := 0; g < 4; g++ {
+			wg.Add(2)
+			go func() {
+				defer wg.Done()
+				for i := 0; i < 150; i++ {
+					_ = m.UpdateNode(time.Millisecond)
+				}
+			}()
+			go func(g int) {
+				defer wg.Done()
+				for i := 0; ; i++ {
+					select {
+					case <-stop:
+						return
+					default:
+					}
+					m.suspectNode(&suspect{Incarnation: 1, Node: fmt.Sprintf("nobody%d", g), From: "x"})
+					m.deadNode(&dead{Incarnation: 1, Node: fmt.Sprintf("nobody%d", g), From: "x"})
+				}
+			}(g)
+		}
+		done := make(chan struct{})
+		go func() { wg.Wait(); close(done) }()
+		go func() { time.Sleep(1500 * time.Millisecond); close(stop) }()
+		stuck := false
+		select {
+		case <-done:
+		case <-time.After(6 * time.Second):
+			stuck = true
+		}
+		c.Obs = append(c.Obs, []int64{0, vwBool(stuck), 0}, []int64{0, 0, 0})
+		st.Ops++
+		st.OpHist["readers_and_writers"]++
+		if !stuck {
+			m.Shutdown()
+		}
+		return
+	}
 	if len(c.Ops) > 0 && c.Ops[0][0] == 24 {
 		// Shutdown while the transport's listener is handing a datagram over: the transport is torn down first
 		// and waits for its listener, which needs the node's packet loop to still be taking packets
@@ -393,11 +436,14 @@ func TestVfLife(t *testing.T) {
 			if i < 2 {
 				cases = append(cases, vfCase{Cfg: []int64{1}, Ops: [][]int64{{22}}}, vfCase{Cfg: []int64{1}, Ops: [][]int64{{23}}}, vfCase{Cfg: []int64{1}, Ops: [][]int64{{24}}})
 			}
+			if i == 0 {
+				cases = append(cases, vfCase{Cfg: []int64{1}, Ops: [][]int64{{25}}})
+			}
 		}
 		vlRealSockets(st)
 	}
 	for i := range cases {
-		if len(cases[i].Ops) > 0 && cases[i].Ops[0][0] == 20 {
+		if len(cases[i].Ops) > 0 && (cases[i].Ops[0][0] == 20 || cases[i].Ops[0][0] == 25) {
 			vlRun(t, &cases[i], st)
 			continue
 		}
